@@ -3,8 +3,10 @@ package main
 import (
 	"errors"
 	"fmt"
+	"github.com/bluenviron/gomavlib/v3/pkg/dialect"
 	"github.com/bluenviron/gomavlib/v3/pkg/dialects/minimal"
 	"net"
+	"reflect"
 	"runtime"
 	"strings"
 	"sync"
@@ -457,6 +459,83 @@ func genC10(o *hx.Out, tier string) {
 		peer.Close()
 		scn.CloseWithin(node, 10*time.Second)
 		o.Add("tcp channel, application pauses longer than the idle time-out", verdict, "expect", "ok", fmt.Sprintf("slow-consumer sc=%d", sc))
+	}
+	// ---- stream requests enabled, and peers that leave right after their heartbeat (a custom endpoint
+	// going through forty lives while the application writes): whatever the node does on behalf of a
+	// channel, nothing of that channel is delivered after its close event ----
+	{
+		cd := shipped("common")
+		cdrw := &dialect.ReadWriter{Dialect: cd}
+		cdrw.Initialize() //nolint:errcheck
+		p := scn.NewPipe("leavers")
+		node := newNode([]*scn.Pipe{p}, func(c *gomavlib.NodeConf) { c.Dialect = cd; c.StreamRequestEnable = true })
+		col := scn.NewCollector(node, 0, false)
+		var hbm message.Message
+		for _, m := range cd.Messages {
+			if m.GetID() == 0 {
+				hbm = hx.RandMessage(r, m, 0)
+			}
+		}
+		reflect.ValueOf(hbm).Elem().FieldByName("Autopilot").SetUint(3)
+		mrw := cdrw.GetMessage(0)
+		stop := make(chan struct{})
+		var wg sync.WaitGroup
+		wg.Add(1)
+		go func() {
+			defer wg.Done()
+			for {
+				select {
+				case <-stop:
+					return
+				default:
+					node.WriteMessageAll(hbm) //nolint:errcheck
+				}
+			}
+		}()
+		const lives = 40
+		for i := 0; i < lives; i++ {
+			f := &frame.V2Frame{SystemID: byte(1 + i), ComponentID: 1, Message: mrw.Write(hbm, true)}
+			f.Checksum = f.GenerateChecksum(mrw.CRCExtra())
+			p.Feed(frameBytes(cdrw, f))
+			p.FeedErr(fmt.Errorf("peer %d left", i))
+			time.Sleep(2 * time.Millisecond)
+		}
+		col.Wait(func() bool {
+			n := 0
+			for _, ch := range col.Channels() {
+				for _, e := range col.Events(ch) {
+					if _, ok := e.(*gomavlib.EventChannelClose); ok {
+						n++
+					}
+				}
+			}
+			return n >= lives
+		})
+		time.Sleep(100 * time.Millisecond)
+		close(stop)
+		wg.Wait()
+		scn.CloseWithin(node, 10*time.Second)
+		<-col.Done
+		verdict := "ok"
+		late := 0
+		for _, ch := range col.Channels() {
+			closed := false
+			for _, e := range col.Events(ch) {
+				if closed {
+					late++
+					if verdict == "ok" {
+						verdict = fmt.Sprintf("EVENT-AFTER-CLOSE %T", e)
+					}
+				}
+				if _, ok := e.(*gomavlib.EventChannelClose); ok {
+					closed = true
+				}
+			}
+		}
+		if late > 0 {
+			verdict += fmt.Sprintf(" (%d events after the close event of their channel)", late)
+		}
+		o.Add("stream requests for peers that leave at once", verdict, "expect", "ok", "sr-leavers")
 	}
 	// ---- datagram transports: one UDP datagram carries many frames (senders coalesce them); a
 	// datagram is one chunk of the stream: every frame of it is delivered, in order, and nothing is
